@@ -4,7 +4,7 @@
    model theorems (proved in EFModel.C19_Return1D_proofs / EFModel.C19_Commit). *)
 From Coquelicot Require Import Coquelicot.
 From Coq Require Import Reals List Lra Bool.
-From EFModel Require Import C19_Return1D C19_Return1D_proofs C19_Commit.
+From EFModel Require Import C19_Return1D C19_Return1D_proofs C19_Commit C19_Lift.
 From EFP Require Import Gen_C19.
 Import List ListNotations.
 Open Scope R_scope.
@@ -181,6 +181,26 @@ Theorem C19_dissipation_nonneg : forall pt th, lam_nonneg (pairs pt) -> 0 <= th 
     dissip (pairs pt) th = dGam Rops pt th * phi Rops (pairs pt) th /\ 0 <= dissip (pairs pt) th.
 Proof. exact dissipation_nonneg. Qed.
 Print Assumptions C19_dissipation_nonneg.
+
+(* the same two facts about the returned 6D stress, given what eigh guarantees about T *)
+Theorem C19_yield_function_of_returned_stress :
+  forall (Stress : Type) (Tm : list R -> Stress) (quadP : Stress -> R) ps,
+    (forall s, length s = length ps -> quadP (Tm s) = quad_eig ps s) ->
+    forall th, sqrt (Rmax (quadP (sigma_new Stress Tm ps th)) 0) = phi Rops ps th.
+Proof. exact phi_of_sigma_new. Qed.
+Print Assumptions C19_yield_function_of_returned_stress.
+
+Theorem C19_plastic_work_nonneg_6d :
+  forall (Stress : Type) (Tm : list R -> Stress) (ssub : Stress -> Stress -> Stress)
+         (cinv : Stress -> Stress -> R) ps,
+    (forall s t, length s = length ps -> length t = length ps ->
+                 cinv (Tm s) (ssub (Tm t) (Tm s)) = dotl s (subl t s)) ->
+    forall th, Forall (fun q => 0 <= fst q) ps -> 0 <= th ->
+    cinv (sigma_new Stress Tm ps th) (ssub (sigma_trial Stress Tm ps) (sigma_new Stress Tm ps th))
+    = (th * phi Rops ps th) * phi Rops ps th /\
+    0 <= cinv (sigma_new Stress Tm ps th) (ssub (sigma_trial Stress Tm ps) (sigma_new Stress Tm ps th)).
+Proof. exact plastic_work_6d. Qed.
+Print Assumptions C19_plastic_work_nonneg_6d.
 
 Theorem C19_commit_only_on_save :
   forall (Strain Stress Tangent State Group : Type) (zeros : State)
